@@ -145,7 +145,9 @@ func VH_C08_errors(caseID int) {
 	if kind == 2 {
 		code = StatusInternalServerError
 	}
-	if kind == 3 {
+	if kind == 3 && want != -1 {
+		// the chosen custom handler fails itself; the framework's default handler (want == -1)
+		// does not, it answers the 404
 		code = StatusInternalServerError
 	}
 	got := -2
